@@ -97,6 +97,21 @@ def c13_r2(ctx: Ctx, rule):
             res.fail(rule.id, "global-table-write::%s::%s" % (q, e[0]), ctx.loc(fq, node),
                      "%s mutates the module-level object %s (%s): %s" % (label, e[0][7:], e[2], " -> ".join(eff.explain(q, e))),
                      "the second export of an n-ary relation raises KeyError: 'label' / uses a style changed by the first")
+    # process-wide registries of third-party libraries are "module-level tables" too
+    EXT_GLOBAL_MUTATORS = {"register_namespace", "set_default_parser", "setlocale", "register_adapter", "install_opener", "setdefaultencoding", "set_element_class_lookup"}
+    n_ext = 0
+    for q, roots, label in exporters(ctx):
+        for fq in sorted(eff.closure(q)):
+            ffi = ctx.p.functions.get(fq)
+            if ffi is None or isinstance(ffi.node, ast.Lambda):
+                continue
+            for c in calls_in(ffi.node):
+                if call_name(c) in EXT_GLOBAL_MUTATORS and isinstance(c.func, ast.Attribute) and not (isinstance(c.func.value, ast.Name) and c.func.value.id == "self"):
+                    n_ext += 1
+                    res.fail(rule.id, "external-global-registry::%s::%s" % (fq, call_name(c)), ctx.loc(fq, c),
+                             "%s calls %s on the export path of %s: a process-wide registry of the library is changed by exporting" % (short(fq), norm(c.func), label),
+                             "exporting one document changes the prefixes lxml invents for another: the same document exports to different XML text before and after")
+    res.ob("calls that change a process-wide registry of lxml / locale / sqlite3 on export paths: %d" % n_ext, nontrivial=False)
     return res
 
 
@@ -166,6 +181,13 @@ def c13_r3(ctx: Ctx, rule):
                 body = n.body if isinstance(n, ast.If) else [n.body]
                 firsts = [x for b in body for x in ast.walk(b) if isinstance(x, ast.Call) and call_name(x) in ("first", "next", "min", "max", "sorted") and x.args and entry in norm(x.args[0])]
                 firsts += [x for b in body for x in ast.walk(b) if isinstance(x, ast.Subscript) and norm(x.value) in (entry, "list(%s)" % entry)]
+                # a private accessor that does the single-value read for a key: self._first_value(k)
+                for b in body:
+                    for x in ast.walk(b):
+                        if isinstance(x, ast.Call) and isinstance(x.func, ast.Attribute) and norm(x.func.value) == norm(c.comparators[0].value) and x.args and norm(x.args[0]) == norm(c.left) and fi.cls:
+                            hq = ctx.p.lookup_method(fi.cls, x.func.attr)
+                            if hq and any(isinstance(y, ast.Call) and call_name(y) in ("first", "next", "min", "max") and y.args and mm in norm(y.args[0]) for y in walk_function(ctx.fn(hq).node)):
+                                firsts.append(x)
                 ok = truthy or not firsts
                 res.ob("%s: membership test `%s` guards %d single-value read(s) of the entry: %s" % (short(q), norm(c), len(firsts), "conjoined with a truth test of the entry" if truthy else ("no single-value read" if ok else "NOT conjoined with a truth test")))
                 if not ok:
@@ -1255,3 +1277,77 @@ def c12_r8(ctx: Ctx, rule):
 
 RULES.setdefault("C12", []).append(Rule("C12.R8", "no state shared through a class-level container or a mutable default argument", 3, c12_r8, "F-OWN",
                                         "independent documents, managers and records never meet in an object created at import time"))
+
+
+# ===================================================================================== C09.R10 add_bundle resolves the identifier in the right scope, and checks the result
+def c09_r10(ctx: Ctx, rule):
+    """(a) The requested identifier may be a 'prefix:local' string whose prefix only the *document* declares: it resolves through the
+    bundle's manager only after that manager has been linked to the document's (`bundle._namespaces.parent = self._namespaces`).
+    (b) valid_qualified_name returns None for a string it cannot resolve: the result is None-tested before it becomes the bundle's
+    identifier and its key in the document (as ProvDocument.bundle() does)."""
+    res = RuleResult()
+    q = DOC + ".add_bundle"
+    fi = ctx.fn(q)
+    g = get_cfg(ctx, q)
+    bpar = fi.params[1]
+    resolves = [c for c in calls_in(fi.node) if call_name(c) == "valid_qualified_name" and isinstance(c.func, ast.Attribute)]
+    if not resolves:
+        raise AnalysisError("add_bundle no longer resolves the requested identifier")
+    links = [n for n in walk_function(fi.node) if isinstance(n, ast.Assign) and any(isinstance(t, ast.Attribute) and t.attr == "parent" for t in n.targets)]
+    dom = g.dominators(labels_excluded=("exc", "raise"))
+    for c in resolves:
+        recv = norm(c.func.value)
+        through_bundle = recv.split(".")[0] not in ("self",)
+        cn = node_of(g, c)
+        if through_bundle:
+            ln = {x.id for l in links for x in g.node_containing(l)}
+            ok = bool(dom.get(cn.id, set()) & ln)
+            res.ob("%s resolves in the bundle's scope after that scope was linked to the document's: %s" % (norm(c)[:50], ok))
+            if not ok:
+                res.fail(rule.id, "resolved-before-parent-link", ctx.loc(q, c), "add_bundle resolves the identifier through %s before the bundle's manager is linked to the document's" % recv,
+                         "d declares ex; d.add_bundle(b, 'ex:b5') with b not declaring ex: the identifier resolves to None and the bundle is stored under the key None")
+        else:
+            res.ob("%s resolves in the document's own scope" % norm(c)[:50])
+        # (b) None test of the result before it is stored
+        tgt = next((a.targets[0].id for a in walk_function(fi.node) if isinstance(a, ast.Assign) and a.value is c and isinstance(a.targets[0], ast.Name)), None)
+        stores = [n for n in walk_function(fi.node) if isinstance(n, ast.Assign) and tgt and any(isinstance(t, ast.Subscript) and isinstance(t.slice, ast.Name) and t.slice.id == tgt for t in n.targets)]
+        for st in stores:
+            sn = node_of(g, st)
+            tested = any(g.nodes[i].kind == "test" and tgt in norm(g.nodes[i].stmt.test) and ("None" in norm(g.nodes[i].stmt.test) or norm(g.nodes[i].stmt.test) in (tgt, "not %s" % tgt)) for i in dom.get(sn.id, set()))
+            res.ob("the resolved identifier `%s` is None-tested before `%s`: %s" % (tgt, norm(st)[:40], tested))
+            if not tested:
+                res.fail(rule.id, "unresolved-identifier-stored::%s" % tgt, ctx.loc(q, st), "add_bundle stores the bundle under `%s` without testing that the identifier could be resolved (valid_qualified_name returns None for an unknown prefix)" % tgt,
+                         "d.add_bundle(b, 'zz:b1') with zz declared nowhere: the bundle is attached under the identifier None")
+    return res
+
+
+RULES.setdefault("C09", []).append(Rule("C09.R10", "add_bundle resolves the requested identifier after linking the scopes and refuses an identifier it cannot resolve", 2, c09_r10, "F-PATH",
+                                        "the bundle is attached under the requested identifier, or refused"))
+
+
+def unified_is_fresh(ctx: Ctx, rule):
+    """prov_to_dot / prov_to_graph draw `unified()`: both unified() methods build their result on every path (no `return self`
+    shortcut - a document without repeated identifiers at its own level may still have them inside a bundle)."""
+    res = RuleResult()
+    eff = get_effects(ctx)
+    for q in (DOC + ".unified", BUNDLE + ".unified"):
+        s = eff.sum[q]
+        roots = {r for r in s.ret_roots if not r.startswith("global:")}
+        res.ob("%s builds its result on every path (returns nothing reachable from its source): %s" % (short(q), not roots))
+        if roots:
+            res.fail(rule.id, "unified-shortcut::%s" % q, ctx.loc(q, ctx.fn(q).node), "%s can hand back (part of) its source (%s) instead of a unified copy" % (short(q), sorted(roots)),
+                     "a document whose only repeated identifiers are inside a bundle: the shortcut skips the bundles, and the element is drawn twice in its cluster")
+    # every bundle goes through unified(): the document-level method calls <bundle>.unified() inside its loop over the bundles
+    dq = DOC + ".unified"
+    df = ctx.fn(dq)
+    loops = [n for n in walk_function(df.node) if isinstance(n, ast.For) and "bundle" in norm(n.iter)]
+    ok = any(isinstance(c, ast.Call) and call_name(c) == "unified" for l in loops for c in ast.walk(l))
+    res.ob("ProvDocument.unified unifies each bundle in its loop over the bundles: %s" % ok)
+    if not ok:
+        res.fail(rule.id, "bundles-not-unified", ctx.loc(dq, df.node), "ProvDocument.unified does not call unified() on each of its bundles", "repeated identifiers inside a bundle stay separate records")
+    return res
+
+
+for _p, _r in (("C15", "C15.R7"), ("C14", "C14.R7"), ("C08", "C08.R13")):
+    RULES.setdefault(_p, []).append(Rule(_r, "unified() always builds a unified copy, bundles included (no shortcut that returns the source)", 3, unified_is_fresh, "F-OWN",
+                                         "what is drawn / converted is the unified form of every bundle"))
